@@ -1,6 +1,7 @@
 import FordModel.Proto
 import FordModel.Reader
 import FordModel.Fixed
+import FordModel.FixedTree
 import FordModel.Dispatch.C02
 namespace Ford
 open Proto Fixed
@@ -17,7 +18,13 @@ def parseVariant : Str → Variant
     `c14.conv <var> <lim> line*`      -> `ok` converted-line*
     `c14.analyse <var> <lim> line`    -> `ok` conv regular cont long excess
     `c14.read <var> <doc> <pre> <alt> <preAlt> <lim> line*`
-                                      -> `ok` item* | `err` kind   (reader after converter) -/
+                                      -> `ok` item* | `err` kind   (reader after converter)
+    `c14.readtree <var> <doc> <pre> <alt> <preAlt> <fixed> <lim> <nfiles> (<name> <n> line*n)*nfiles main-line*`
+                                      -> `ok` item* | `err` kind
+                                         (reader with include expansion over the given files;
+                                          `<fixed>` = 1: every file goes through the converter)
+    `c14.form <ext> <n> extension*n fixed-extension*`
+                                      -> `ok` `fixed` | `free` | `none`   (form selected for a file) -/
 def dispatchC14 : List Str → Option (List Str)
   | cmd :: args =>
     if cmd == "c14.conv".toList then
@@ -37,6 +44,27 @@ def dispatchC14 : List Str → Option (List Str)
                 ((convertToFree (parseVariant v) (lim == ['1']) lines).map dropNL) with
         | .ok items => some ("ok".toList :: items)
         | .error e => some ["err".toList, rerrName e]
+      | _ => some ["bad-request".toList]
+    else if cmd == "c14.readtree".toList then
+      match args with
+      | v :: d :: p :: a :: pa :: fx :: lim :: nf :: rest =>
+        match parseFiles (natOf nf) rest with
+        | none => some ["bad-request".toList]
+        | some (fs, main) =>
+          let m : Marks := { doc := d, pre := p, alt := a, preAlt := pa }
+          let r := if fx == ['1'] then readFixedTree Include.readerCfg (parseVariant v) (lim == ['1']) m fs 8 main
+                   else readFreeTree Include.readerCfg m fs 8 main
+          match r with
+          | .ok items => some ("ok".toList :: items)
+          | .error e => some ["err".toList, ierrName e]
+      | _ => some ["bad-request".toList]
+    else if cmd == "c14.form".toList then
+      match args with
+      | ext :: n :: rest =>
+        match sourceForm (rest.take (natOf n)) (rest.drop (natOf n)) ext with
+        | some true => some ["ok".toList, "fixed".toList]
+        | some false => some ["ok".toList, "free".toList]
+        | none => some ["ok".toList, "none".toList]
       | _ => some ["bad-request".toList]
     else none
   | [] => none
